@@ -253,9 +253,77 @@ def run(ctx):
                               payload, found_input=True)
             ctx.sample({"entry": ent.decode(), "call": call, "nth": nth, "errno": ERRNOS[eno], "gone": sorted(p.decode() for p in gone)[:4]}, cap=8)
 
+    directed_fault_scenarios(ctx, shim)
+
     # model-level hook (engine G): failing every read of one inode in the extracted model, which Props_C15.v is about, gives
     # the partition of the model and of the implementation on the tree without that inode
     grp_common.model_fault_check(ctx, ctx.pick(40, 400))
+
+
+def directed_fault_scenarios(ctx, shim):
+    """(a) MANY unreadable files in one size class (more than 8 x the hashing threads of the device): the run still finishes,
+    the unreadable files are left out, the readable ones are grouped as without the fault, for every thread-pool setting;
+    (b) `--transform ... $IN` with ONE file that cannot be opened (EACCES / EIO) hashed before many others: the others are all
+    still reported."""
+    import shutil
+    for i in range(ctx.pick(3, 18)):
+        rng = ctx.rng.fork()
+        base = os.path.join(ctx.scratch, "many%d" % i)
+        root = os.path.join(base, "r")
+        shutil.rmtree(base, ignore_errors=True)
+        size = rng.choice([100, 5000, 70000])
+        good = treegen.content(rng.next(), size)
+        nbad = rng.choice([9, 12, 20, 40])
+        for k in range(6):
+            p = os.path.join(root, "good", "g%d" % k)
+            os.makedirs(os.path.dirname(p), exist_ok=True)
+            with open(p, "wb") as f:
+                f.write(good if k < 4 else treegen.content(rng.next(), size))
+        for k in range(nbad):
+            p = os.path.join(root, "bad", "b%02d" % k)
+            os.makedirs(os.path.dirname(p), exist_ok=True)
+            with open(p, "wb") as f:
+                f.write(good if k % 3 == 0 else treegen.content(1000 + k // 2, size))
+        transform = i % 3 != 0
+        one_bad = i % 3 == 2
+        threads = rng.choice([["--threads", "1"], ["--threads", "main:1", "--threads", "default:4"], [], ["--threads", "64"]])
+        if one_bad:
+            threads = ["--threads", "1"]     # the files hashed after the unopenable one are the interesting ones
+        opts = ["--rf-over", "0"] + threads + (["--transform", "cat $IN"] if transform else [])
+        bad_path = os.path.join(root, "bad", "b00") if one_bad else os.path.join(root, "bad")
+        eno = rng.choice([13, 5])
+        env0 = {"FCLONES_VERIF_DISK_KIND": rng.choice(["ssd", "hdd"])}
+        env = dict(env0, LD_PRELOAD=shim, RDSHIM_PATH=bad_path, RDSHIM_CALL="open", RDSHIM_ERRNO=str(eno), RDSHIM_NTH="0")
+        if not one_bad:
+            env["RDSHIM_MATCH"] = "prefix"
+        rc, out, err = treegen.fclones(["group", root, "-f", "json"] + opts, env=env, timeout=60)
+        ctx.count()
+        ctx.distinct(("many", i, nbad, size, tuple(opts), one_bad), True)
+        ctx.bump("directed_faults", "%s%s" % ("one_unopenable+transform" if one_bad else "many_unopenable", "+transform" if transform and not one_bad else ""))
+        payload = {"scenario": "%s file(s) under %s fail every open with %s" % ("one" if one_bad else nbad, bad_path, ERRNOS[eno]), "opts": opts,
+                   "size": size, "stderr": err.decode("utf-8", "replace")[-600:],
+                   "replay": "LD_PRELOAD=%s RDSHIM_PATH=%s %sRDSHIM_CALL=open RDSHIM_ERRNO=%d RDSHIM_NTH=0 fclones group %s %s" % (
+                       shim, bad_path, "" if one_bad else "RDSHIM_MATCH=prefix ", eno, root, " ".join(opts))}
+        if rc != 0:
+            ctx.violation({"kind": "hang_under_faults" if rc == -9 else "run_failed_under_fault", "scenario": "directed"},
+                          "fclones group %s when %s" % ("did not finish within 60 s" if rc == -9 else "exited %d" % rc, payload["scenario"]),
+                          payload, found_input=True)
+            continue
+        _, groups = treegen.parse_json_report(out.decode("utf-8"))
+        listed = {p.decode() for g in groups for p in g["files"]}
+        unreadable = {bad_path} if one_bad else {os.path.join(root, "bad", "b%02d" % k) for k in range(nbad)}
+        readable = {os.path.join(d, f) for d, _, fs in os.walk(root) for f in fs} - unreadable
+        payload["missing"] = sorted(readable - listed)[:6]
+        payload["unreadable_listed"] = sorted(unreadable & listed)[:6]
+        if unreadable & listed:
+            ctx.violation({"kind": "unreadable_file_reported", "scenario": "directed"}, "files that cannot be opened are listed", payload, found_input=True)
+        if readable - listed:
+            ctx.violation({"kind": "other_files_dropped", "scenario": "directed"},
+                          "%d readable files are missing from the report (--rf-over 0 lists every readable file)" % len(readable - listed), payload, found_input=True)
+        for g in groups:
+            if len({open(p, "rb").read() for p in g["files"]}) > 1:
+                ctx.violation({"kind": "others_grouped_differently", "scenario": "directed"}, "a group mixes different contents", payload, found_input=True)
+        shutil.rmtree(base, ignore_errors=True)
 
 
 def expected_groups(all_groups, ids, cls_of, _unused, got_files, under):
